@@ -13,7 +13,7 @@ Bind_RegPlan == << Plan(1, 11, 1, Tok("any"), Tok("any"), 0) >>
 \* explicit spelling of the default public key
 Ids == {NoneV, A(0), A(31), A(32)}
 Bind_RegIdus == {NoneV, A(0), A(31)}
-Bind_RegIdss == {NoneV, A(0), A(31), Tok("spk")}
+Bind_RegIdss == {NoneV, A(0), A(31), Tok("spk"), Tok("spk3")}
 Bind_RegKsfs == {0}
 Bind_CliPw   == [c \in CliIds |-> <<A(1), A(1)>>]
 Bind_SrvSetups == {1, 2, 3}
@@ -21,10 +21,10 @@ Bind_SrvRecs == {1}
 Bind_SrvCids == {A(11), A(12)}
 Bind_SrvCtxs == {NoneV, A(21), A(22)}
 Bind_SrvIdus == Ids \cup {Tok("cpk")}
-Bind_SrvIdss == Ids \cup {Tok("spk")}
+Bind_SrvIdss == Ids \cup {Tok("spk"), Tok("spk3")}
 Bind_CliCtxs == {NoneV, A(0), A(21), A(22)}
 Bind_CliIdus == Ids \cup {Tok("cpk")}
-Bind_CliIdss == Ids \cup {Tok("spk")}
+Bind_CliIdss == Ids \cup {Tok("spk"), Tok("spk3")}
 Bind_CliKsfs == {0}
 Bind_MutPlan == << >>
 
